@@ -111,3 +111,67 @@ func elementOf(v ssa.Value) *ssa.IndexAddr {
 	ia, _ := ld.X.(*ssa.IndexAddr)
 	return ia
 }
+
+// constBoundedIndex: idx is the induction variable of a counting loop whose header tests  idx < K  for a
+// constant K <= n, it starts at a constant >= 0 (or at -1 with the use being φ+1, the compiler's range form),
+// advances by exactly one, and block b is inside the loop body: 0 <= idx < n holds there.
+func constBoundedIndex(idx ssa.Value, n int64, b *ssa.BasicBlock) bool {
+	var phi *ssa.Phi
+	rangeForm := false
+	switch v := idx.(type) {
+	case *ssa.BinOp:
+		p, ok := v.X.(*ssa.Phi)
+		if v.Op != token.ADD || !isIntConst(v.Y, 1) || !ok {
+			return false
+		}
+		phi, rangeForm = p, true
+	case *ssa.Phi:
+		phi = v
+	default:
+		return false
+	}
+	h := phi.Block()
+	if len(h.Instrs) == 0 {
+		return false
+	}
+	iff, ok := h.Instrs[len(h.Instrs)-1].(*ssa.If)
+	if !ok {
+		return false
+	}
+	cmp, ok := iff.Cond.(*ssa.BinOp)
+	if !ok || cmp.Op != token.LSS || cmp.X != idx {
+		return false
+	}
+	k, ok := cmp.Y.(*ssa.Const)
+	if !ok || k.Value == nil || k.Int64() > n {
+		return false
+	}
+	body := h.Succs[0]
+	if len(body.Preds) != 1 || !body.Dominates(b) {
+		return false
+	}
+	for i, ed := range phi.Edges {
+		inside := h.Dominates(h.Preds[i])
+		switch {
+		case !inside && rangeForm:
+			if !isIntConst(ed, -1) {
+				return false
+			}
+		case !inside:
+			c, ok := ed.(*ssa.Const)
+			if !ok || c.Value == nil || c.Int64() < 0 {
+				return false
+			}
+		case rangeForm:
+			if ed != idx {
+				return false
+			}
+		default:
+			inc, ok := ed.(*ssa.BinOp)
+			if !ok || inc.Op != token.ADD || inc.X != ssa.Value(phi) || !isIntConst(inc.Y, 1) {
+				return false
+			}
+		}
+	}
+	return true
+}
